@@ -65,18 +65,19 @@ def variants(ctx, scs, lens):
         v24 = [dict(w=2400, input="cbin", path_type="str"), dict(w=1200, compress=True),
                dict(w=3612, w_type="float", encoding="geom", ptype=2013), dict(w=60000, w_type="default"),
                dict(w=rot([2400, 1200]), pre="stale_force", extra="_x1"), dict(w=rot([1200, 3612]), pre="decline_force", sibling=True),
-               dict(w=rot([588, 600, 1152]), w_type=rot(["np32", "np64", "int"])),
+               dict(w=rot([588, 600, 1152]), w_type=rot(["np32", "np64", "int"])), dict(w=rot([1200, 2400]), pre="twice_force", compress=rot([True, False])),
                dict(w=1200, nsamples=(ns * 5 // 8) | 1, group=f"len{ns}part"), dict(w=2400, nsamples=(ns * 5 // 8) | 1, w_type="float", group=f"len{ns}part"),
                dict(w=1200, lf_whole=True, group=f"whole{ns}"), dict(w=rot([2400, 3612]), lf_whole=True, input="cbin", group=f"whole{ns}")]
         off = 145 + 7 * j
         v21 = [dict(w=1200), dict(w=3612, ptype=1030, encoding="geom"), dict(w=2400, input="cbin"), dict(w=rot([3612, 1200]), compress=True),
                dict(w=2400, pre="stale_force", w_type="np64"), dict(w=1200, pre="decline_force", path_type="str"),
+               dict(w=rot([1200, 2400]), pre="twice_force", compress=True), dict(w=3612, pre="twice_force"),
                dict(w=1200, offset=off, nsamples=ns - 2 * off + 1, group=f"np21v_{ns}off"),
                dict(w=2400, offset=off, nsamples=ns - 2 * off + 1, compress=True, group=f"np21v_{ns}off"),
                dict(w=1200, offset=off, nsamples=ns - off, group=f"np21v_{ns}end"), dict(w=rot([3612, 2400]), offset=off, nsamples=ns - off, group=f"np21v_{ns}end")]
         if ctx.quick:           # quick: every variant once, spread over the two lengths (pairs of a new group stay together)
-            v24 = [v24[i] for i in ([0, 2, 4, 6, 7, 8, 9, 10] if j == 0 else [1, 3, 5])]
-            v21 = [v21[i] for i in ([0, 1, 3, 5, 6, 7] if j == 0 else [0, 2, 4, 8, 9])]
+            v24 = [v24[i] for i in ([0, 2, 4, 6, 8, 9, 10, 11] if j == 0 else [1, 3, 5, 7])]
+            v21 = [v21[i] for i in ([0, 1, 3, 5, 6, 8, 9] if j == 0 else [0, 2, 4, 7, 10, 11])]
         out += [dict(b24, **v) for v in v24] + [dict(b21, **v) for v in v21]
     return out
 
